@@ -1,10 +1,10 @@
 #!/bin/bash
 # Run one check against a MUTATED COPY of /repo (never touches /repo itself).
 # usage: mutcheck.sh <patch.diff | -> <Cxx> [quick|thorough]     ("-" = no patch: sanity run on the copy)
-# The copy lives in /tmp/mut/{repo,tv,target,out}; it is reset from /repo and /verif/tv on every call.
+# The copy lives in ${MUT_DIR:-/tmp/mut}/{repo,tv,target,out}; it is reset from /repo and /verif/tv on every call.
 set -u
 PATCH="$1"; PROP="$2"; TIER="${3:-quick}"
-M=/tmp/mut
+M=${MUT_DIR:-/tmp/mut}
 mkdir -p $M/out
 rsync -a --delete --exclude target --exclude .git /repo/ $M/repo/ || exit 2
 rsync -a --delete --exclude target /verif/tv/ $M/tv/ || exit 2
@@ -16,7 +16,7 @@ if [ "$PATCH" != "-" ]; then
     *.py) (cd $M/repo && python3 "$PATCH") || { echo "mutation script failed"; exit 2; } ;;
     *) (cd $M/repo && patch -p1 --no-backup-if-mismatch < "$PATCH") || { echo "patch failed"; exit 2; } ;;
   esac
-  (cd / && diff -ru --exclude target --exclude .git repo/crates tmp/mut/repo/crates | sed 's|^--- repo/|--- a/|; s|^+++ tmp/mut/repo/|+++ b/|' > $M/out/applied.diff)
+  (cd / && diff -ru --exclude target --exclude .git repo/crates ${M#/}/repo/crates | sed "s|^--- repo/|--- a/|; s|^+++ ${M#/}/repo/|+++ b/|" > $M/out/applied.diff)
 fi
 export CARGO_NET_OFFLINE=true CARGO_TARGET_DIR=$M/target
 (cd $M/tv && cargo build --offline --bin tv 2>&1 | tail -n 30 > $M/out/build.log)
